@@ -749,7 +749,11 @@ def _piece(f):
     walk(chk)
     if not spans:
         return text
-    return text[min(a for a, _ in spans):max(b for _, b in spans)]
+    a, b = min(a for a, _ in spans), max(b for _, b in spans)
+    # a little left context: an arrow operator directly in front of the piece (`v->>count(a)`) belongs to its mechanism
+    left = text[max(0, a - 4):a]
+    m = _re.search(r'->>?\s*$', left)
+    return (left[m.start():] if m else '') + text[a:b]
 
 
 # Mechanism features of the WRITTEN piece, for failures of the kind "the written piece is not one node" whose signature
